@@ -246,58 +246,66 @@ def collectStoredRaw (s : V) (from_ to : Nat) : List Nat × Bool :=
 def diskWriteAt (d : List Nat) (i v : Nat) : Option (List Nat) :=
   if i > d.length then none else if i = d.length then some (d ++ [v]) else some (d.set i v)
 
+/-- stage 0 of raw `write()`: after a rolled-back truncation the region is first extended (zero filled)
+to the logical stored length (fix: of F5), so the writes below are in bounds -/
+def wrExtend (s : V) : V :=
+  if s.storedLen > s.disk.length then { s with disk := s.disk ++ List.replicate (s.storedLen - s.disk.length) 0 } else s
+
+/-- stage 1: new data / truncation (`truncated` was decided before stage 0) -/
+def wrData (s : V) (truncated : Bool) : Except EK V :=
+  if !s.pushed.isEmpty then
+    let taken := s.pushed
+    if s.storedLen > s.disk.length then .error .writeOutOfBounds     -- truncate_write(at > len); the taken buffer is dropped
+    else .ok { s with pushed := [], disk := s.disk.take s.storedLen ++ taken, storedLen := s.storedLen + taken.length }
+  else if truncated then .ok { s with disk := s.disk.take s.storedLen }
+  else .ok s
+
+/-- overlay entries written with the region's checked `write_at` (expanded case) -/
+def wrOverlayAt (upd : List (Nat × Nat)) (s : V) : Except Out V :=
+  upd.foldl (fun (acc : Except Out V) (kv : Nat × Nat) =>
+    match acc with
+    | .error e => .error e
+    | .ok s => match diskWriteAt s.disk kv.1 kv.2 with
+      | some d => .ok { s with disk := d }
+      | none => .error (.err .writeOutOfBounds)) (.ok s)
+
+/-- overlay entries written in place through the mapping -/
+def wrOverlaySet (upd : List (Nat × Nat)) (s : V) : Except Out V :=
+  upd.foldl (fun (acc : Except Out V) (kv : Nat × Nat) =>
+    match acc with
+    | .error e => .error e
+    | .ok s => if kv.1 < s.disk.length then .ok { s with disk := s.disk.set kv.1 kv.2 }
+               else .error .panic) (.ok s)
+
+/-- stage 2: the overlay -/
+def wrOverlay (s : V) (expanded : Bool) : Except Out V :=
+  if !s.updated.isEmpty then
+    if expanded then wrOverlayAt s.updated { s with updated := [] }
+    else wrOverlaySet s.updated { s with updated := [] }
+  else .ok s
+
+/-- stage 3: deleted slots -/
+def wrHoles (s : V) (hasHoles hadHoles : Bool) : V × Out :=
+  if hasHoles then ({ s with hasStoredHoles := true, holesDisk := s.holes }, .okB true)
+  else if hadHoles then ({ s with hasStoredHoles := false, holesDisk := [] }, .okB true)
+  else (s, .okB true)
+
 def writeRaw (s : V) : V × Out :=
   let s := s.writeHeaderIfNeeded
-  let storedLen := s.storedLen
-  let real := s.disk.length
-  let truncated := storedLen < real
-  let expanded := storedLen > real
+  let truncated := decide (s.storedLen < s.disk.length)
+  let expanded := decide (s.storedLen > s.disk.length)
   let hasNew := !s.pushed.isEmpty
   let hasUpd := !s.updated.isEmpty
   let hasHoles := !s.holes.isEmpty
   let hadHoles := s.hasStoredHoles
   if !truncated && !expanded && !hasNew && !hasUpd && !hasHoles && !hadHoles then (s, .okB false)
   else
-    -- after a rolled-back truncation the region is first extended (zero filled) to the logical
-    -- stored length (fix: of F5), so the writes below are in bounds
-    let s := if expanded then { s with disk := s.disk ++ List.replicate (storedLen - real) 0 } else s
-    -- new data / truncation
-    let r1 : Except EK V :=
-      if hasNew then
-        let taken := s.pushed
-        let s := { s with pushed := [] }
-        if storedLen > s.disk.length then .error .writeOutOfBounds     -- truncate_write(at > len); the taken buffer is dropped
-        else .ok { s with disk := s.disk.take storedLen ++ taken, storedLen := storedLen + taken.length }
-      else if truncated then .ok { s with disk := s.disk.take storedLen }
-      else .ok s
-    match r1 with
-    | .error e => ({ s with pushed := [] }, .err e)
-    | .ok s =>
-      -- overlay
-      let r2 : Except Out V :=
-        if hasUpd then
-          let upd := s.updated
-          let s := { s with updated := [] }
-          if expanded then
-            upd.foldl (fun (acc : Except Out V) (kv : Nat × Nat) =>
-              match acc with
-              | .error e => .error e
-              | .ok s => match diskWriteAt s.disk kv.1 kv.2 with
-                | some d => .ok { s with disk := d }
-                | none => .error (.err .writeOutOfBounds)) (.ok s)
-          else
-            upd.foldl (fun (acc : Except Out V) (kv : Nat × Nat) =>
-              match acc with
-              | .error e => .error e
-              | .ok s => if kv.1 < s.disk.length then .ok { s with disk := s.disk.set kv.1 kv.2 }
-                         else .error .panic) (.ok s)
-        else .ok s
-      match r2 with
-      | .error o => ({ s with updated := [] }, o)
-      | .ok s =>
-        if hasHoles then ({ s with hasStoredHoles := true, holesDisk := s.holes }, .okB true)
-        else if hadHoles then ({ s with hasStoredHoles := false, holesDisk := [] }, .okB true)
-        else (s, .okB true)
+    match s.wrExtend.wrData truncated with
+    | .error e => ({ s.wrExtend with pushed := [] }, .err e)
+    | .ok s1 =>
+      match s1.wrOverlay expanded with
+      | .error o => ({ s1 with updated := [] }, o)
+      | .ok s2 => s2.wrHoles hasHoles hadHoles
 
 def splitChunks : Nat → Nat → List Nat → List (List Nat)
   | 0, _, _ => []
@@ -676,6 +684,28 @@ def items (s : V) : List (Option Nat) × Bool :=
     let stored := (pagesValues s.pages).take s.storedLen
     let pad := List.replicate (s.storedLen - stored.length) garbage
     ((stored ++ pad ++ s.pushed).map some, decide (stored.length < s.storedLen))
+
+/-! ## read-only clones, `VecReader` and the stored-only sources (C20) -/
+
+/-- number of elements of a raw vector that a read-only clone, a `VecReader` or a stored mmap / file-IO
+source can address: the shared stored length, clamped to what the region physically holds
+(`stored_len.min((reader.len() - HEADER_OFFSET) / SIZE_OF_T)`, fix: of F6) -/
+def addressable (s : V) : Nat := min s.storedLen s.disk.length
+
+/-- `ReadOnlyRawVec::collect_one_at`, `VecReader::try_get` -/
+def cloneGet (s : V) (i : Nat) : Option Nat × Bool :=
+  if i < s.addressable then (some (s.diskRead i).1, (s.diskRead i).2) else (none, false)
+
+/-- range reads of a clone and the stored sources: elements `[min from n, min to n)`, `n = addressable` -/
+def cloneRange (s : V) (from_ to : Nat) : List Nat × Bool :=
+  (List.range (min to s.addressable - min from_ s.addressable)).foldl (fun (acc : List Nat × Bool) k =>
+    let r := s.diskRead (min from_ s.addressable + k); (acc.1 ++ [r.1], acc.2 || r.2)) ([], false)
+
+/-- what a whole battery of clone reads reports for the C20 flag -/
+def cloneReadsOob (s : V) : Bool :=
+  match s.kind with
+  | .raw => (s.cloneRange 0 (s.len + 1)).2
+  | .comp => false      -- page slices lie inside the region by the chain invariant (C20_pages)
 
 end V
 
